@@ -36,6 +36,10 @@ import PyamgV.Proofs.ExtC17R4Evo
 import PyamgV.Proofs.ExtC17R4Air
 import PyamgV.Proofs.ExtC17R4AirB
 import PyamgV.Proofs.ExtC18Bal
+import PyamgV.Proofs.ExtC17R5Par
+import PyamgV.Proofs.ExtC17R5MisK
+import PyamgV.Proofs.ExtC17R5Rat
+import PyamgV.Proofs.ExtC17R5Lloyd
 import PyamgV.Proofs.Bfs
 import PyamgV.Proofs.CC
 import PyamgV.Proofs.ColoringLoop
@@ -412,6 +416,76 @@ restate bellman_ford_balanced_no_fault := PyamgV.Bal.wrapper_no_fault
 of `balanced_lloyd_cluster`, the final state of an earlier call), for any number of sweeps -/
 restate bellman_ford_balanced_loop_no_fault := PyamgV.Bal.loop_no_fault
 
+/-! ### extension E46 (round 5): the last kernel, `center_nodes`, and termination INSIDE the checked models of the two parallel
+independent-set kernels
+
+`center_nodes` is E34's executable model `BalLloyd.centerNodes` (`Model/ExtC12Bal.lean`; `none` = an out-of-bounds index or a read of an
+uninitialised entry of the `np.empty` work arrays `C`, `L`; compared exactly with the rebuilt kernel by this check, op
+`ext_c12_center_nodes`). -/
+/-- **`center_nodes` never leaves its arrays**: structurally valid matrix, non-negative weights, ANY pattern (clusters connected or
+not); the bookkeeping invariant `KInv` of the Lloyd loop (ids in range, exact size array, centres inside their clusters), every node
+assigned, no cluster above `max_size`, predecessors are nodes: the model returns (`some`), and the returned state satisfies the same
+hypotheses again -/
+restate center_nodes_no_fault := PyamgV.C17R5.centerNodes_no_fault
+restate center_nodes_fault_unreachable := PyamgV.C17R5.centerNodes_ne_none
+/-- the counting sort: `C[Cptr[m[i]]]` stays inside `C` because the cluster sizes add up to at most `n` -/
+restate center_nodes_bucket_fill_in_range := PyamgV.C17R5.fill_no_fault
+restate center_nodes_cluster_sizes_sum := PyamgV.C17R5.pre_total_le
+/-- `L[C[Cptr[a] + j]] = j` only reads initialised slots of `C` -/
+restate center_nodes_local_indices_in_range := PyamgV.C17R5.setL_no_fault
+/-- every member of a cluster sits in its bucket (so `L[j]` is initialised for every neighbour `j` inside the cluster) -/
+restate center_nodes_bucket_surjective := PyamgV.C17R5.buckets_surj
+/-- `floyd_warshall` as `center_nodes` calls it (after `fill(D, inf)`, `fill(P, -1)`), any pattern: in range, no uninitialised `L`
+entry read, **`D[ij]` finite → `P[ij]` is a node** (`FwOK`), and pairs joined by a walk inside the cluster end finite -/
+restate floyd_warshall_cluster_ok := PyamgV.C17R5.fwRun_ok
+/-- on a strongly connected cluster all `N × N` distances end finite (the classical Floyd–Warshall induction, `Rk`) -/
+restate floyd_warshall_connected_all_finite := PyamgV.C17R5.fwRun_connected
+restate floyd_warshall_rounds_discover_walks := PyamgV.C17R5.lwalk_rk
+/-- a relaxation keeps "finite → node" and never turns a finite distance infinite -/
+restate floyd_warshall_relax_ok := PyamgV.C17R5.fwRelax_ok
+/-- a new centre `i` has a finite `q[i]`, so the whole row `D[i, ·]` is finite, so every `P[i, j]` written into `p` is a node --
+also when the cluster is not strongly connected -/
+restate center_nodes_new_centre_row_finite := PyamgV.C17R5.qOf_fin
+restate center_nodes_selection_in_cluster := PyamgV.C17R5.select_no_fault
+restate center_nodes_update_in_range := PyamgV.C17R5.moveCentre_no_fault
+/-- `bellman_ford_balanced` from ANY state of the Lloyd loop (`KInv` and "assigned nodes have a node as predecessor"): no
+out-of-bounds access, both invariants kept (weights `≥ tol`; no grid assumption) -/
+restate bellman_ford_balanced_lloyd_state_no_fault := PyamgV.C17R5.kernel_ok
+/-- **the Lloyd loop of `balanced_lloyd_cluster` never leaves its arrays**: every call of `bellman_ford_balanced` and of
+`center_nodes` inside `while (changed1 or changed2) and it < maxiter`, any number of iterations: the hypotheses of
+`center_nodes_no_fault` hold at every call site -/
+restate balanced_lloyd_loop_no_fault := PyamgV.C17R5.innerLoop_no_fault
+/-- … from the state every rebalance round starts with (distinct centres inside the graph) -/
+restate balanced_lloyd_round_no_fault := PyamgV.C17R5.round_no_fault
+
+/-- one pass of `maximal_independent_set_parallel` from ANY vector: the number of `active` entries drops when there is one (the
+maximal active node is decided), a pass without active node leaves `active_nodes == false`, and `active_nodes == false` means
+no `active` entry is left -/
+restate mis_parallel_pass_decides := PyamgV.C17R5.mpPass_term
+/-- **`maximal_independent_set_parallel` with `max_iters = -1` terminates INSIDE the checked model**: any structurally valid
+pattern, `WOrd` weights, `C ≠ active`, `F ≠ active`, any start vector: `∃ r, model = some r ∧ Safe r ..` for every fuel `≥ n + 1`,
+and no `active` entry is left -/
+restate mis_parallel_checked_total := PyamgV.C17R5.misParallel_total
+/-- … the instance the driver op `c17r5_mis_parallel` runs (rational weights, fuel `n + 1`) -/
+restate mis_parallel_checked_total_rat := PyamgV.C17R5.misParallel_total_rat
+/-- a run with any `max_iters` that starts without entry `C` returns a partial independent set (any pattern, any weights) -/
+restate mis_parallel_checked_partial := PyamgV.C17R5.misParallel_partial
+/-- `csr_propagate_max`: the checked model computes the function model `G.propagateMax` of C18 (keys `int` / natural numbers) -/
+restate csr_propagate_max_refines := PyamgV.C17R5.propagateMax_ref
+restate csr_propagate_max_rounds_refine := PyamgV.C17R5.propagateK_ref
+/-- one outer iteration of `maximal_independent_set_k_parallel`: checked model = function model `G.misKIter` -/
+restate mis_k_parallel_iteration_refines := PyamgV.C17R5.mkIter_ref
+/-- **`maximal_independent_set_k_parallel` with `max_iters = -1` terminates INSIDE the checked model** under the conditions of
+`misK_total` (C18): symmetric structurally valid pattern, `k ≥ 0`, strictly totally ordered weights above the marker `-1`:
+`∃ r, model = some r ∧ Safe r ..` for every fuel `≥ n + 1`; the value is a distance-`k` maximal independent set and equals what the
+function model returns -/
+restate mis_k_parallel_checked_total := PyamgV.C17R5.misKParallel_total
+/-- … the instance the driver op `c17r5_mis_k_parallel` runs -/
+restate mis_k_parallel_checked_total_rat := PyamgV.C17R5.misKParallel_total_rat
+/-- the rational weight operations of the driver satisfy the hypotheses on the abstract comparisons -/
+restate rat_weights_order_like := PyamgV.C17R5.ratW_ord
+restate rat_weights_agree := PyamgV.C17R5.ratW_agree
+
 /-! ### non-vacuity: the flag is true on a well-formed input and false on a malformed one -/
 /-- `rs_cf_splitting`, whole-kernel model: path 0-1-2-3 runs clean ... -/
 example : (PyamgV.RS.runCk PyamgV.RS.path4 PyamgV.RS.path4).ok = true := by decide
@@ -508,6 +582,69 @@ def exSvOps : C17R4.SvOps Int :=
     ofInt := id, lt := fun a b => decide (a < b), le := fun a b => decide (a ≤ b), eq := fun a b => decide (a = b) }
 example : (C17R4.pinvArray exSvOps 0 #[2,0,0,1] 1 2 false).ok = true := by decide
 example : (C17R4.pinvArray exSvOps 0 #[2,0,0] 1 2 false).ok = false := by decide
+
+/-! E46: the hypotheses of `center_nodes_no_fault` are satisfiable: path 0–1–2 with unit weights, one cluster with centre 0,
+`d = (0,1,2)`, `p = (0,0,1)`, `pc = (2,1,0)`, `s = (3)`, `max_size = 3` (the model moves the centre to node 1, `p = (1,1,1)`,
+`pc = (0,3,0)`: control in `harness/props/c17.py`; with `p[1] = -1` or `max_size = 2` it faults) -/
+def cnA : PyamgV.Bal.Csr := ⟨3, #[0,1,3,4], #[1,0,2,1], #[1,1,1,1]⟩
+def cnSt : PyamgV.Bal.St := ⟨#[some 0, some 1, some 2], #[0,0,0], #[0,0,1], #[2,1,0], #[3]⟩
+def cnX : PyamgV.BalLloyd.LSt := ⟨cnSt, #[0], #[], Array.replicate 3 none, Array.replicate 3 none⟩
+theorem cn_dnn : ∀ j x, PyamgV.Bal.rdO cnSt.d j = some x → 0 ≤ x := by
+  intro j x h
+  have hj : j = 0 ∨ j = 1 ∨ j = 2 ∨ 3 ≤ j := by omega
+  rcases hj with rfl | rfl | rfl | hj
+  · have : x = 0 := by simpa [PyamgV.Bal.rdO, cnSt] using h.symm
+    rw [this]
+  · have : x = 1 := by simpa [PyamgV.Bal.rdO, cnSt] using h.symm
+    rw [this]; decide
+  · have : x = 2 := by simpa [PyamgV.Bal.rdO, cnSt] using h.symm
+    rw [this]; decide
+  · exfalso
+    have : PyamgV.Bal.rdO cnSt.d j = none := by
+      simp only [PyamgV.Bal.rdO, cnSt, Array.getD_eq_getD_getElem?]
+      rw [Array.getElem?_eq_none (by simpa using hj)]
+      rfl
+    rw [this] at h; cases h
+example : ∃ y ch, PyamgV.BalLloyd.centerNodes (1/100) cnA 3 cnX = some (y, ch) ∧ PyamgV.BalLloyd.KInv cnA.n 1 y.c y.st ∧
+    y.st.m = cnX.st.m ∧ y.st.s = cnX.st.s ∧ y.cc.size = cnA.n ∧ y.l.size = cnA.n ∧ PyamgV.C17R5.PRange cnA.n y.st :=
+  PyamgV.C17R5.centerNodes_no_fault (by norm_num) (by decide) (by decide)
+    ⟨rfl, rfl, rfl, rfl, rfl, rfl, by decide, by decide, cn_dnn, by decide⟩ rfl rfl (by decide) (by decide)
+    (by unfold PyamgV.C17R5.PRange; decide)
+
+/-- E46: the hypotheses of the two termination theorems are satisfiable (integer weights, path 0–1–2) -/
+example : C17R5.WAgree exWOps := ⟨fun _ _ => rfl, fun _ _ => rfl⟩
+example : PyamgV.WOrd Int := ⟨fun a => by omega, fun a b => by omega, fun a b c => by omega, fun a b => by omega⟩
+example : C17.WFm (C17.patS 3 #[0,1,3,4] #[1,0,2,1]) 3 := ⟨rfl, by decide, by decide, by decide, by decide, by decide⟩
+theorem ex_adj (i : Nat) : (PyamgV.Ext.pg (C17R5.natG 3 #[0,1,3,4] #[1,0,2,1])).adj i =
+    (List.range' (#[(0:Int),1,3,4].getD i 0).toNat ((#[(0:Int),1,3,4].getD (i+1) 0).toNat - (#[(0:Int),1,3,4].getD i 0).toNat)).map
+      (fun q => (#[(1:Int),0,2,1].getD q 0).toNat) := C17R5.natG_row 3 _ _ i
+example : PyamgV.GraphOK (PyamgV.Ext.pg (C17R5.natG 3 #[0,1,3,4] #[1,0,2,1])) := by
+  have h0 : (PyamgV.Ext.pg (C17R5.natG 3 #[0,1,3,4] #[1,0,2,1])).adj 0 = [1] := by rw [ex_adj]; decide
+  have h1 : (PyamgV.Ext.pg (C17R5.natG 3 #[0,1,3,4] #[1,0,2,1])).adj 1 = [0, 2] := by rw [ex_adj]; decide
+  have h2 : (PyamgV.Ext.pg (C17R5.natG 3 #[0,1,3,4] #[1,0,2,1])).adj 2 = [1] := by rw [ex_adj]; decide
+  have hn : (PyamgV.Ext.pg (C17R5.natG 3 #[0,1,3,4] #[1,0,2,1])).n = 3 := rfl
+  refine ⟨?_, ?_⟩
+  · intro i hi j hj
+    rw [hn] at hi ⊢
+    have : i = 0 ∨ i = 1 ∨ i = 2 := by omega
+    rcases this with rfl | rfl | rfl
+    · rw [h0] at hj; simp at hj; omega
+    · rw [h1] at hj; simp at hj; omega
+    · rw [h2] at hj; simp at hj; omega
+  · intro i j hi hj
+    rw [hn] at hi hj
+    have hi' : i = 0 ∨ i = 1 ∨ i = 2 := by omega
+    have hj' : j = 0 ∨ j = 1 ∨ j = 2 := by omega
+    rcases hi' with rfl | rfl | rfl <;> rcases hj' with rfl | rfl | rfl <;> simp [h0, h1, h2]
+/-- the directed path 0→1→2 with increasing weights needs three passes of the parallel MIS: fuel 2 runs out, fuel `n + 1 = 4` suffices -/
+example : (C17R4.misParallel exWOps 3 #[0,1,2,2] #[1,2] (-1) 1 0 #[-1,-1,-1] #[0,1,2] (-1) 2).isNone = true := by decide
+example : ((C17R4.misParallel exWOps 3 #[0,1,2,2] #[1,2] (-1) 1 0 #[-1,-1,-1] #[0,1,2] (-1) 4).map (fun r => (r.val, r.ok)))
+    = some ((#[1,0,1], 2), true) := by decide
+/-- MIS-1 on the path with weights `0,0,1` (above `-1`): fuel `n + 1` suffices, nodes 0 and 2 are selected; with the weight `-1` next
+to a decided node the fuel runs out (the finding of C18) -/
+example : ((C17R4.misKParallel exWOps 3 #[0,1,3,4] #[1,0,2,1] 1 #[-7,-7,-7] #[0,0,1] (-1) 4).map (fun r => (r.val, r.ok)))
+    = some (#[1,0,1], true) := by decide
+example : (C17R4.misKParallel exWOps 3 #[0,1,3,4] #[1,0,2,1] 1 #[-7,-7,-7] #[-1,0,1] (-1) 4).isNone = true := by decide
 
 /-! ### interface facts regenerated from the working tree on every run (translator tie):
 signatures and const-ness of every native kernel (which arrays a kernel may write) -/
